@@ -46,6 +46,19 @@
 (* explicit transitions to alive = FALSE / a self-loop, each behind a      *)
 (* named switch (TRUE = the code as written, FALSE = the repaired code in  *)
 (* which the same input is a decode error).                                *)
+(*                                                                         *)
+(* Two dimensions of the environment go beyond "one input to one loop":    *)
+(*   CLIENT HISTORIES  (ipcli, sccli with InterleavedMode, c.il = "yes"):  *)
+(*     a case is a sequence c.hs of exchanges on ONE client value; the     *)
+(*     network ends each exchange in one of the ways of HistSyms (answered *)
+(*     basic / interleaved, lost, junk then silence, an error response,    *)
+(*     a pause); the client's reaction to a response depends on the state  *)
+(*     c.h it carries from exchange to exchange (section "Client           *)
+(*     histories").                                                        *)
+(*   BURSTS  (ipsrv, scsrv, g.bu): the crafted datagram is preceded by     *)
+(*     concurrent traffic from many source addresses to all receive loops  *)
+(*     of the listener (RobustBurst.tla is the model of the loops and of   *)
+(*     the store they share; here a burst is one environment step).        *)
 (***************************************************************************)
 EXTENDS Integers, Sequences, FiniteSets, TLC
 
@@ -57,6 +70,8 @@ CONSTANTS
   MaxCases,     \* crafted inputs per behaviour (each followed by a sentinel)
   Wide,         \* TRUE: full class alphabets; FALSE: the reduced ones (quick tier)
   ScDev,        \* SCION datagrams: how many dimensions may deviate from the canonical datagram at once
+  MaxHist,      \* client histories: scripted exchanges on one client value (0: no histories)
+  Bursts,       \* burst classes that may precede a crafted datagram (subset of BurstAll; {}: none)
   \* ---- switches: TRUE = as written in the pinned tree
   ExtLenZeroLoops,        \* nts.DecodePacket / authenticate: pos += Length-4 for Length < 4
   NonceLenUnchecked,      \* AEAD.Open is handed a network-supplied nonce of length # 16
@@ -94,10 +109,22 @@ G0 == [sz |-> "na", src |-> "na", fs |-> << >>, end |-> "na", ck |-> "na",
        ml |-> "na", mt |-> "na", seq |-> "na", tlv |-> "na",
        \* SCION
        cp |-> "na", sc |-> "na", da |-> "na", sa |-> "na", ia |-> "na", pt |-> "na", ext |-> "na",
-       eo |-> "na", l4 |-> "na", ul |-> "na", dp |-> "na", pl |-> "na", tr |-> "na"]
+       eo |-> "na", l4 |-> "na", ul |-> "na", dp |-> "na", pl |-> "na", tr |-> "na",
+       \* servers: the burst of concurrent traffic that precedes this datagram
+       bu |-> "na"]
+
+\* the interleaved-mode state a client value carries from exchange to exchange (c.prev in the code):
+\*   ref  prev.reference is set (an exchange has been accepted)
+\*   il   prev.interleaved (the last accepted response was an interleaved one)
+\*   old  prev.cTxTime is more than 3 s in the past
+\*   tx, rx  the exchange (its number in the history) whose transmit time is in prev.cTxTime resp. whose
+\*        receive time is in prev.cRxTime -- as written both are stored together, when a response is accepted
+H0 == [ref |-> FALSE, il |-> FALSE, old |-> FALSE, tx |-> 0, rx |-> 0]
 
 C0(kind) == [kind |-> kind, auth |-> "na", pre |-> "na", ke |-> << >>, kt |-> "na",
-             rs |-> << >>, out |-> "na", site |-> "na"]
+             rs |-> << >>, out |-> "na", site |-> "na",
+             \* clients: InterleavedMode of the client value ("yes": the case is a history hs on it), its state
+             il |-> "na", hs |-> << >>, h |-> H0]
 
 NoScript == [kind |-> "noscript"]
 Scripted(sc) == sc.kind # "noscript"
@@ -245,6 +272,30 @@ Authenticate(s, sc, retry, after) ==
     : an \in PickG(s, sc, "an", AnDom)}
 
 (***************************************************************************)
+(* Bursts (ipsrv, scsrv)                                                   *)
+(* StartIPServer / StartSCIONServer start 8 receive loops per port on      *)
+(* SO_REUSEPORT sockets; a 4-tuple reaches one loop only.  The loops share *)
+(* the timestamp store (a Go map and a heap guarded by tssMu): every valid *)
+(* request looks its client up (handleRequest, updateTXTimestamp) and a    *)
+(* request from a new client address inserts.  A burst is concurrent       *)
+(* traffic from many source addresses, i.e. to all loops at once:          *)
+(*   vn   well-formed requests, each from a new client address             *)
+(*   vk   well-formed requests, client addresses recur (interleaved-mode   *)
+(*        pairs are stored, updated and removed)                           *)
+(*   mix  well-formed requests from new addresses mixed with copies of     *)
+(*        the crafted datagram of the case                                 *)
+(* RobustBurst.tla has the loops, the lock and the map accesses as         *)
+(* separate steps and shows that, with every access under tssMu, no        *)
+(* interleaving ends in the runtime's "concurrent map" abort; here the     *)
+(* burst is ONE step of the environment that leaves the process as it is.  *)
+(* Pairwise: bursts precede the datagrams that are decided without an      *)
+(* extension-field walk.                                                   *)
+(***************************************************************************)
+BurstAll == {"vn", "vk", "mix"}
+BuDom(allowed) == IF allowed THEN {"none"} \cup Bursts ELSE {"none"}
+BurstSizes == {"s0", "s47", "s48", "s49", "s2049"}
+
+(***************************************************************************)
 (* ipsrv                                                                   *)
 (***************************************************************************)
 \* datagram size against the decisions n < 48, n > 48, len-48 >= 28, MSG_TRUNC (buffer 2048)
@@ -265,10 +316,11 @@ CkDom(l) == CASE l = "ok" -> CkShapes [] l = "four" -> {"empty"} [] l = "odd" ->
 
 SrvSucc(s, sc) ==
   LET g == s.g IN
-  CASE s.pc = "Idle" ->           \* ReadMsgUDPAddrPort; flags != 0 (MSG_TRUNC) => continue
-        {IF z = "s2049" THEN Fail([s EXCEPT !.g.sz = z], "read:flags", FALSE)
-                        ELSE [s EXCEPT !.g.sz = z, !.pc = "Parsed"]
-         : z \in PickG(s, sc, "sz", SrvSizes)}
+  CASE s.pc = "Idle" ->           \* [burst;] ReadMsgUDPAddrPort; flags != 0 (MSG_TRUNC) => continue
+        UNION {{IF z = "s2049" THEN Fail([s EXCEPT !.g.sz = z, !.g.bu = u], "read:flags", FALSE)
+                               ELSE [s EXCEPT !.g.sz = z, !.g.bu = u, !.pc = "Parsed"]
+                : u \in PickG(s, sc, "bu", BuDom(z \in BurstSizes))}
+               : z \in PickG(s, sc, "sz", SrvSizes)}
     [] s.pc = "Parsed" ->         \* ntp.DecodePacket: len(b) < 48
         {IF g.sz \in {"s0", "s1", "s47"} THEN Fail(s, "ntp.DecodePacket:size", FALSE)
          ELSE [s EXCEPT !.pc = "Decoded"]}
@@ -363,6 +415,114 @@ KeStep(s, sc, syms, terms) ==
   IN [sym |-> symc, trm |-> trmc]
 
 (***************************************************************************)
+(* Client histories  (ipcli, sccli; IPClient / SCIONClient with            *)
+(* InterleavedMode; core/client/client.go MeasureClockOffsetIP / the       *)
+(* per-client goroutine of MeasureClockOffsetSCION, client_ip.go /         *)
+(* client_scion.go, the functions measureClockOffsetIP / ..SCION)          *)
+(*                                                                         *)
+(* A case is a sequence hs of exchanges on one client value.  Per exchange *)
+(* the network does one of                                                 *)
+(*   basic      a well-formed response whose origin is the request's       *)
+(*              transmit timestamp                                         *)
+(*   ileave     a well-formed response whose origin is the request's       *)
+(*              receive timestamp: what a server that still holds the pair *)
+(*              of the client's last completed exchange answers to an      *)
+(*              interleaved request (e.g. after the REQUEST of the         *)
+(*              exchange in between was lost)                              *)
+(*   ileaveneg  the same with a server transmit time before the stored     *)
+(*              server receive time                                        *)
+(*   lost       nothing (the request or the response is lost)              *)
+(*   junk       a datagram too short for NTP, then nothing                 *)
+(*   meta       a response that matches but fails ValidateResponseMetadata *)
+(*   gap        no exchange: more than 3 s pass before the next call       *)
+(*   auto       a genuine server that lost nothing: ileave to an           *)
+(*              interleaved request, basic otherwise (the sentinel, and    *)
+(*              whatever the last call still sends behind the script)      *)
+(* The client's reaction depends on c.h: a request is an interleaved one   *)
+(* (q = "i") iff an exchange has been accepted from this reference less    *)
+(* than 3 s ago; only an interleaved request accepts an ileave response,   *)
+(* and evaluates it with t0 = prev.cTxTime, t3 = prev.cRxTime --           *)
+(* ntp.ValidateResponseTimestamps panics when t3 < t0.  As written both    *)
+(* stem from the same accepted exchange (h.tx = h.rx), a failed exchange   *)
+(* leaves prev as it is.                                                   *)
+(* One call runs up to 3 exchanges under one deadline: it stops after an   *)
+(* accepted interleaved response, after an exchange that ran into the      *)
+(* deadline (the rest fails without sending), or after the third.          *)
+(* An entry of hs: x the network's choice, q the request, r the result of  *)
+(* the exchange (ok | err | tmo | dead), k its number within the call,     *)
+(* end: the call returns after it, ok: the call's result so far.           *)
+(***************************************************************************)
+HistSymsNarrow == {"basic", "ileave", "lost", "junk", "meta"}
+HistSyms == IF Wide THEN HistSymsNarrow \cup {"ileaveneg", "gap"} ELSE HistSymsNarrow
+HEntry(x, q, r, k, end, ok) == [x |-> x, q |-> q, r |-> r, k |-> k, end |-> end, ok |-> ok]
+
+\* one measureClockOffsetIP / measureClockOffsetSCION on a client in state h, exchange number n
+HEx(h, x, n) ==
+  LET iq  == h.ref /\ ~h.old
+      q   == IF iq THEN "i" ELSE "b"
+      y   == IF x = "auto" THEN (IF iq THEN "ileave" ELSE "basic") ELSE x
+      acc(il) == [ref |-> TRUE, il |-> il, old |-> FALSE, tx |-> n, rx |-> n]
+      res(r, h2) == [q |-> q, r |-> r, h |-> h2]
+  IN CASE y = "basic" -> res("ok", acc(FALSE))
+       [] y \in {"ileave", "ileaveneg"} ->
+            \* a basic request: the origin is not its transmit time -- errUnexpectedPacket, retried, the deadline
+            IF ~iq THEN res("tmo", h)
+            \* t3 = prev.cRxTime before t0 = prev.cTxTime: panic("unexpected system clock behavior")
+            ELSE IF h.rx < h.tx THEN res("dead", h)
+            ELSE IF y = "ileaveneg" THEN res("err", h)      \* t2 < t1: errUnexpectedResponse
+            ELSE res("ok", acc(TRUE))
+       [] y \in {"lost", "junk"} -> res("tmo", h)
+       [] OTHER -> res("err", h)                            \* meta
+
+HistDone(c, sc) ==
+  LET n == Len(c.hs) IN
+  n >= 1 /\ c.hs[n].end /\ n >= (IF Scripted(sc) THEN Len(sc.hs) ELSE MaxHist)
+
+HistSucc(s, sc) ==
+  LET c == s.c
+      n == Len(c.hs)
+      newcall == n = 0 \/ c.hs[n].end
+      k == IF newcall THEN 1 ELSE c.hs[n].k + 1
+      sofar == IF newcall THEN FALSE ELSE c.hs[n].ok
+      \* MeasureClockOffsetSCION: a client that is not in interleaved mode when the call starts is reset
+      h0 == IF newcall /\ c.kind = "sccli" /\ ~(c.h.ref /\ c.h.il) THEN [c.h EXCEPT !.ref = FALSE] ELSE c.h
+      \* pairwise: at most one pause per history, where it matters (behind a call that accepted a response)
+      gapOk == newcall /\ n >= 1 /\ c.hs[n].ok /\ \A i \in 1 .. n : c.hs[i].x # "gap"
+      xs == IF Scripted(sc) THEN (IF n < Len(sc.hs) THEN {sc.hs[n + 1].x} ELSE {"auto"})
+            ELSE IF n < MaxHist THEN {x \in HistSyms : x = "gap" => gapOk}
+            ELSE {"auto"}
+      Gap == [s EXCEPT !.c.hs = Append(@, HEntry("gap", "-", "-", 0, TRUE, IF n = 0 THEN FALSE ELSE c.hs[n].ok)),
+                       !.c.h = [c.h EXCEPT !.old = TRUE]]
+      Step(x) ==
+        LET e == HEx(h0, x, n + 1)
+            \* if ntpc.InInterleavedMode() { break }; the deadline; for i := range 3
+            end == e.r = "tmo" \/ (e.r = "ok" /\ e.h.il) \/ k = 3
+            \* MeasureClockOffsetSCION collects the result of the client's goroutine until the deadline: when an
+            \* exchange ran into the deadline the goroutine delivers while ctx.Done() fires -- a race; if it is
+            \* lost the call reports no measurement although an earlier exchange of the call was accepted
+            oks == IF c.kind = "sccli" /\ e.r = "tmo" /\ sofar THEN {TRUE, FALSE} ELSE {sofar \/ e.r = "ok"}
+        IN IF e.r = "dead"
+           THEN {[s EXCEPT !.alive = FALSE, !.c.hs = Append(@, HEntry(x, e.q, e.r, k, TRUE, sofar)), !.c.h = e.h,
+                           !.c.out = "dead", !.c.site = "ntp.ValidateResponseTimestamps:panic"]}
+           ELSE {[s EXCEPT !.c.hs = Append(@, HEntry(x, e.q, e.r, k, end, ok)), !.c.h = e.h] : ok \in oks}
+  IN IF HistDone(c, sc)
+     THEN {[s EXCEPT !.pc = "Idle", !.c.out = IF c.hs[n].ok THEN "served" ELSE "dropped",
+                     !.c.site = IF c.hs[n].ok THEN "-" ELSE "hist:" \o c.hs[n].r]}
+     ELSE UNION {IF x = "gap" THEN {Gap} ELSE Step(x) : x \in xs}
+
+\* InterleavedMode of the client value; a fresh client (c.il = "na") chooses, the client of a history keeps it
+IlDom(c, sc) == IF c.il # "na" THEN {c.il}
+                ELSE IF Scripted(sc) THEN (IF sc.il = "na" THEN {"no"} ELSE {sc.il})
+                ELSE IF MaxHist > 0 THEN {"no", "yes"} ELSE {"no"}
+
+\* what a recorded history shows: the kind of every request, the number of requests and the result of every call
+HistReqs(hs) == SelectSeq(hs, LAMBDA e : e.x # "gap")
+HistQ(hs) == LET es == HistReqs(hs) IN [i \in 1 .. Len(es) |-> es[i].q]
+HistCallEnds(hs) == SelectSeq(hs, LAMBDA e : e.x # "gap" /\ e.end)
+HistCallLens(hs) == LET es == HistCallEnds(hs) IN [i \in 1 .. Len(es) |-> es[i].k]
+HistCallRes(hs) == LET es == HistCallEnds(hs) IN [i \in 1 .. Len(es) |-> IF es[i].r = "dead" THEN "dead" ELSE IF es[i].ok THEN "ok" ELSE "err"]
+
+(***************************************************************************)
 (* ipcli: one call of measureClockOffsetIP                                 *)
 (***************************************************************************)
 \* receive buffer: 48 bytes without NTS (larger datagrams: MSG_TRUNC), MaxPacketLen with
@@ -381,9 +541,14 @@ Sub(Dom, good, full) == IF full THEN Dom ELSE Dom \cap good
 
 CliSucc(s, sc) ==
   LET g == s.g  c == s.c IN
-  CASE s.pc = "Idle" ->           \* configuration of the client (not input): NTS or not
-        {IF a = "yes" THEN [s EXCEPT !.c.auth = a, !.pc = "KeDial"] ELSE [s EXCEPT !.c.auth = a, !.pc = "ReqBuilt"]
-         : a \in PickC(sc, "auth", {"no", "yes"})}
+  CASE s.pc = "Idle" ->           \* configuration of the client (not input): interleaved mode (then a history), NTS or not
+        UNION {
+          IF i = "yes" THEN {[s EXCEPT !.c.il = i, !.c.auth = "no", !.pc = "Hist"]}
+          ELSE {IF a = "yes" THEN [s EXCEPT !.c.il = i, !.c.auth = a, !.pc = "KeDial"]
+                             ELSE [s EXCEPT !.c.il = i, !.c.auth = a, !.pc = "ReqBuilt"]
+                : a \in PickC(sc, "auth", {"no", "yes"})}
+          : i \in IlDom(c, sc)}
+    [] s.pc = "Hist" -> HistSucc(s, sc)
     [] s.pc = "KeDial" ->         \* dialTLS: handshake, ALPN
         {CASE p = "tls" -> [s EXCEPT !.c.pre = p, !.pc = "KeRead"]
            [] OTHER -> Fail([s EXCEPT !.c.pre = p], "ntske.dialTLS", FALSE)
@@ -665,7 +830,7 @@ DevCount(g) ==
   B2N(g.pl \notin {"na", "ok"}) + B2N(g.tr \notin {"na", "ok"}) +
   B2N(g.ul \notin {"na", "ok"}) + B2N(g.sz \notin {"na", "s48"}) + B2N(g.b0 \notin {"na", "v4c"}) +
   B2N(g.ia \notin {"na", "ok"}) + B2N(g.org \notin {"na", "match"}) + B2N(g.meta \notin {"na", "ok"}) +
-  B2N(g.ts \notin {"na", "ok"}) + B2N(g.sc \notin {"na", "ok"})
+  B2N(g.ts \notin {"na", "ok"}) + B2N(g.sc \notin {"na", "ok"}) + B2N(g.bu \notin {"na", "none"})
 \* `canon`: the canonical values of the field; `same`: the field belongs to a dimension that already deviates
 Lim(g, Dom, canon, same) == IF DevCount(g) >= ScDev /\ ~same THEN Dom \cap canon ELSE Dom
 
@@ -722,7 +887,10 @@ ScReverse(s, thenServe) ==    \* scionLayer.Path.Reverse(); if err != nil { pani
 ScSrvSucc(s, sc) ==
   LET g == s.g IN
   CASE s.pc = "Idle" ->           \* which listener: the server port or the end-host port 30041
-        {[s EXCEPT !.g.cp = p, !.pc = "Parsed"] : p \in PickG(s, sc, "cp", {"srv", "eh"})}
+        \* (a burst counts as one deviating dimension)
+        UNION {{[s EXCEPT !.g.cp = p, !.g.bu = u, !.pc = "Parsed"]
+                : u \in PickG(s, sc, "bu", Lim([g EXCEPT !.cp = p], BuDom(TRUE), {"none"}, FALSE))}
+               : p \in PickG(s, sc, "cp", {"srv", "eh"})}
     [] s.pc = "Parsed" -> ScDecode(s, sc, EoSrv, {"auth28cok"}, FALSE, FALSE, "Classified")
     [] s.pc = "Classified" ->
         IF g.l4 \in {"scmpecho", "scmptr"} THEN {ScReverse(s, Serve(s))}     \* SCMP responder
@@ -771,7 +939,11 @@ ScCliFull(s) == Len(s.c.rs) = 0 \/ (Len(s.c.rs) = 1 /\ s.c.rs[1].sc = "cmnshort"
 ScCliSucc(s, sc) ==
   LET g == s.g  c == s.c  full == ScCliFull(s) IN
   CASE s.pc = "Idle" ->
-        {[s EXCEPT !.c.auth = a, !.pc = "Await"] : a \in PickC(sc, "auth", {"no", "yes"})}
+        UNION {
+          IF i = "yes" THEN {[s EXCEPT !.c.il = i, !.c.auth = "no", !.pc = "Hist"]}
+          ELSE {[s EXCEPT !.c.il = i, !.c.auth = a, !.pc = "Await"] : a \in PickC(sc, "auth", {"no", "yes"})}
+          : i \in IlDom(c, sc)}
+    [] s.pc = "Hist" -> HistSucc(s, sc)
     [] s.pc = "Await" ->          \* ReadMsgUDPAddrPort until the deadline
         {IF z = "none" THEN Fail([s EXCEPT !.g.sz = z], "read:deadline", FALSE)
                        ELSE [s EXCEPT !.g.sz = z, !.pc = "Parsed"]
@@ -839,14 +1011,14 @@ Succ(s, sc) ==
          [] OTHER -> {}
 
 \* the well-formed request / exchange sent after every crafted input
-GoodSrvDgram == [G0 EXCEPT !.sz = "s48", !.b0 = "v4c"]
+GoodSrvDgram == [G0 EXCEPT !.sz = "s48", !.b0 = "v4c", !.bu = "none"]
 GoodCliDgram == [G0 EXCEPT !.sz = "s48", !.src = "ok", !.org = "match", !.meta = "ok", !.ts = "ok"]
 Sentinel(kind) ==
   CASE kind = "ipsrv" -> [C0(kind) EXCEPT !.rs = <<GoodSrvDgram>>]
     [] kind = "ipcli" -> [C0(kind) EXCEPT !.auth = "no", !.rs = <<GoodCliDgram>>]
     [] kind = "kesrv" -> [C0(kind) EXCEPT !.pre = "tls", !.ke = <<"np", "aead">>, !.kt = "eom"]
     [] kind = "csptpsrv" -> [C0(kind) EXCEPT !.rs = <<[G0 EXCEPT !.sz = "min", !.ml = "len", !.mt = "sync319"]>>]
-    [] kind = "scsrv" -> [C0(kind) EXCEPT !.rs = <<[G0 EXCEPT !.cp = "srv", !.sc = "ok", !.da = "t0l4", !.sa = "t0l4",
+    [] kind = "scsrv" -> [C0(kind) EXCEPT !.rs = <<[G0 EXCEPT !.cp = "srv", !.bu = "none", !.sc = "ok", !.da = "t0l4", !.sa = "t0l4",
           !.pt = "empty", !.ext = "none", !.l4 = "udp", !.ul = "ok", !.pl = "ok", !.tr = "ok", !.dp = "ntp", !.sz = "s48", !.b0 = "v4c"]>>]
     [] kind = "sccli" -> [C0(kind) EXCEPT !.auth = "no", !.rs = <<[G0 EXCEPT !.sz = "s48", !.sc = "ok", !.da = "t0l4",
           !.sa = "t0l4", !.pt = "empty", !.ext = "none", !.l4 = "udp", !.ul = "ok", !.pl = "ok", !.tr = "ok", !.ia = "ok", !.org = "match",
@@ -854,6 +1026,11 @@ Sentinel(kind) ==
     [] kind = "csptpcli" -> [C0(kind) EXCEPT !.rs =
           <<[G0 EXCEPT !.sz = "min", !.ml = "len", !.seq = "match", !.mt = "sync", !.src = "ok", !.ts = "acc"],
             [G0 EXCEPT !.sz = "tlvds", !.ml = "len", !.seq = "match", !.mt = "fup", !.src = "ok", !.tlv = "okds", !.ts = "acc"]>>]
+
+\* the sentinel of a history is one more call on the SAME client value, answered by a genuine server
+\* ("auto" behind the empty script); the case that follows a crafted input keeps the client of a history
+SentinelFor(c) == IF c.il = "yes" THEN [C0(c.kind) EXCEPT !.il = "yes", !.auth = "no"] ELSE Sentinel(c.kind)
+NextOn(c) == IF c.il = "yes" THEN [C0(c.kind) EXCEPT !.il = "yes", !.h = c.h] ELSE C0(c.kind)
 
 (***************************************************************************)
 (* The processes                                                           *)
@@ -881,10 +1058,10 @@ Stage == /\ sent \in {"none", "queued"}
          /\ UNCHANGED <<k, tick>>
 \* the loop is back at its read (the crafted input is finished): the sentinel is next
 TakeSentinel == /\ alive /\ ~spin /\ c.out \in {"served", "dropped"} /\ sent = "queued"
-                /\ c' = C0(c.kind) /\ g' = G0 /\ pc' = "Idle" /\ sent' = "inproc"
+                /\ c' = NextOn(c) /\ g' = G0 /\ pc' = "Idle" /\ sent' = "inproc"
                 /\ UNCHANGED <<alive, spin, k, tick>>
 StageSentinel == /\ sent = "inproc"
-                 /\ \E s \in Succ(Cur, Sentinel(c.kind)) : Set(s)
+                 /\ \E s \in Succ(Cur, SentinelFor(c)) : Set(s)
                  /\ UNCHANGED <<sent, k, tick>>
 SentinelDone == /\ sent = "inproc" /\ c.out # "na" /\ alive /\ ~spin
                 /\ sent' = IF c.out = "served" THEN "answered" ELSE "lost"
@@ -919,7 +1096,7 @@ SentinelNotLost == sent # "lost"
 \* outcome classes of a finished crafted input, as the harness observes them
 Outcomes == {"served", "dropped", "dead", "hang", "hangoom"}
 TypeOK == /\ pc \in {"Idle", "Parsed", "Classified", "Authenticated", "Decoded", "NtsDecoded", "Validated",
-                      "Handled", "Sent", "KeDial", "KeRead", "KeDone", "ReqBuilt", "Await"}
+                      "Handled", "Sent", "KeDial", "KeRead", "KeDone", "ReqBuilt", "Await", "Hist"}
           /\ alive \in BOOLEAN /\ spin \in BOOLEAN
           /\ c.out \in Outcomes \cup {"na"}
           /\ c.kind \in Kinds
